@@ -145,8 +145,10 @@ func opBaseFee(pc *uint64, interpreter *EVMInterpreter, callContext *callCtx) ([
 }
 
 func opBlobHash(pc *uint64, interpreter *EVMInterpreter, scope *callCtx) ([]byte, error) {
+	// There are no blob transactions on this chain: every index is out of
+	// range, for which EIP-4844 prescribes a zero result.
 	index := scope.stack.peek()
-	index.SetBytes32([]byte{})
+	index.Clear()
 	return nil, nil
 }
 
